@@ -43,6 +43,10 @@ type funk struct {
 	usesEmptyIOBuffer bool
 	usesScratch       bool
 	hasGotoOK         bool
+
+	// usesCoroutineResumed is whether the body mentions coroutine_resumed,
+	// which reads the p_etc field even if there are no suspension points.
+	usesCoroutineResumed bool
 }
 
 func (k *funk) jumpTarget(tm *t.Map, n a.Loop) (string, error) {
